@@ -846,6 +846,9 @@ func (st *fstate) call(ins ssa.Instruction, cc *ssa.CallCommon, res ssa.Value) {
 			if tgt.Parent() != nil {
 				continue
 			}
+			if cc.StaticCallee() == nil && strings.Contains(fnPkgPath(tgt), "fakes") {
+				continue // counterfeiter doubles are never installed by the library itself
+			}
 			handled = true
 			if s := st.o.sums[tgt]; s != nil {
 				st.applySummary(s, args, pos, res, fnName(tgt))
